@@ -125,6 +125,11 @@ func genSqlCfg(r *rng, prop string, tier string) SqlCfg {
 		c.PCrashRestart = []float64{0, 0.03}[r.Intn(2)]
 	case "C10":
 		n := 1 + r.Intn(4)
+		if r.Chance(0.1) {
+			// enough tables and columns for the columns catalog to spill onto a second page
+			n = 12 + r.Intn(6)
+			c.NOps += 40
+		}
 		for i := 0; i < n; i++ {
 			c.LateTables = append(c.LateTables, TableSpec{Name: fmt.Sprintf([]string{"u%d", "u%d", "U%d", "Ux%d"}[r.Intn(4)], i), Cols: genCols(r, true), Wide: []int{6, 30, 120}[r.Intn(3)]})
 		}
@@ -136,6 +141,9 @@ func genSqlCfg(r *rng, prop string, tier string) SqlCfg {
 			}
 		}
 		c.PDDL = 0.1
+		if n >= 12 {
+			c.PDDL = 0.5
+		}
 		c.PRestart = 0.08
 		c.PCrashRestart = 0.06
 	case "C03":
